@@ -3322,6 +3322,8 @@ class RegexMatch(Match):
 
     def _repeat_count(self, token: lark.Token):
         # (the number terminal admits a sign)
+        if len(token.value) > ParseCtx.MAX_INT_LITERAL_LENGTH:
+            raise IllegalParseTree("Repetition count is too long", token)
         count = int(token.value)
         if count < 0:
             raise IllegalParseTree("Repetition count is negative", token)
@@ -4776,7 +4778,12 @@ class ParseCtx:
                 raise IllegalParseTree("Unknown escape sequence \\" + char_const[2] + " in character constant " + char_const)
             return escapes[char_const[2]]
 
+    # (no integer the language can use has this many digits; the interpreter refuses to convert decimal strings beyond a few thousand)
+    MAX_INT_LITERAL_LENGTH = 100
+
     def _convert_int(self, text: str):
+        if len(text) > self.MAX_INT_LITERAL_LENGTH:
+            raise IllegalParseTree("Integer literal is too long: " + text[:20] + "...")
         sign = 1
         if text[0] == "+":
             text = text[1:]
@@ -4883,7 +4890,7 @@ class ParseCtx:
                 if attr.data == "signed_attr":
                     kwargs["int_signed"] = attr.children[0].value == "signed"
                 elif attr.data == "width_attr":
-                    kwargs["int_width"] = int(attr.children[0].value)
+                    kwargs["int_width"] = self._convert_int(attr.children[0].value)
                 else:
                     raise NotImplementedError(attr)
             return OutputStorage(OutputStorageType.INT, name, default_value=default_value, **kwargs)
